@@ -566,6 +566,49 @@ fn run(e: &Engine) {
         },
         check,
     );
+    // strings assembled from pieces of defined suffixes: two suffixes glued together (also one with itself),
+    // and the first k + last k characters of a suffix around a filler - what a comparison of prefixes,
+    // tails or words, instead of the whole string and its length, lets through
+    e.enumerate::<Case, _, _>(
+        "defined-suffix-pieces",
+        ALL_Q.len() as u64,
+        |p, f| {
+            let q = ALL_Q[p as usize];
+            let mut bases: Vec<&'static str> = table(q).iter().map(|(s, _, _)| *s).collect();
+            bases.extend(db_table(q).iter().map(|(s, _)| *s));
+            let mut cands: Vec<String> = Vec::new();
+            for a in &bases {
+                for b in &bases {
+                    cands.push(format!("{a}{b}"));
+                    cands.push(format!("{a}.{b}"));
+                    cands.push(format!("{a}/{b}"));
+                }
+                let n = a.len();
+                for k in 1..=n {
+                    for fill in ["", "X", "XY", "XYZ", ".", "0", a] {
+                        cands.push(format!("{}{fill}{}", &a[..k], &a[n - k..]));
+                    }
+                }
+            }
+            for c in cands {
+                if c.is_empty() || c.len() > 12 {
+                    continue;
+                }
+                for casing in 0..3u8 {
+                    let s: String = c.chars().enumerate().map(|(i, ch)| match casing { 0 => ch, 1 => ch.to_ascii_lowercase(), _ => if i % 2 == 1 { ch.to_ascii_lowercase() } else { ch } }).collect();
+                    if !f(Case::Plain { q, single: casing == 1, lit: "1".into(), suffix: Some(s.clone()) }) {
+                        return;
+                    }
+                    if casing == 0 && s.len() <= 9 {
+                        if !f(Case::Amp { q, single: false, lit: "1".into(), suffix: s, spec: "PK".into() }) {
+                            return;
+                        }
+                    }
+                }
+            }
+        },
+        check,
+    );
     e.proptest("suffix-conversions", e.tier.pick(1_000_000, 20_000_000), case_strategy, check);
     e.require_fraction("suffix with multiplier", "defined suffix", 0.4);
     e.require_fraction("mixed-case suffix", "defined suffix", 0.3);
